@@ -125,6 +125,9 @@ func c12Run(env *core.Env, idx int) *core.CaseResult {
 	r := env.Rand(idx)
 	res := core.NewResult()
 	procs := []int{2, 4, 16}[r.Intn(3)]
+	if idx%8 == 5 {
+		procs = 16 // bursts: as many callers as possible really run at once
+	}
 	old := runtime.GOMAXPROCS(procs)
 	defer runtime.GOMAXPROCS(old)
 	exactlyOnce := idx%4 == 3
@@ -137,6 +140,15 @@ func c12Run(env *core.Env, idx int) *core.CaseResult {
 	if env.Thorough() {
 		opsPer *= 2
 	}
+	// every eighth history is a burst: 150-450 callers enter ExecuteSQL at almost the same time with two statements each on
+	// one bank (many internal aborts and retries while the request queue is full). Judged by the direct rules only (every
+	// call returns once, with the rows of its own statement; no call blocks forever), not by the linearizability search.
+	burst := idx%8 == 5
+	if burst {
+		clients = 300 + r.Intn(301)
+		opsPer = 6 // six rounds; in each round all callers are released together
+		growing = false
+	}
 	memKB := []int{1024, 4096}[r.Intn(2)]
 	db := sqlx.Open(fmt.Sprintf("%s/c12_%d", env.TmpDir, idx), memKB, sqlx.Options{})
 	desc := map[string]any{"seed": env.Seed, "idx": idx, "clients": clients, "ops_per_client": opsPer, "gomaxprocs": procs, "growing_tokens": growing, "exactly_once_workload": exactlyOnce, "memKB": memKB}
@@ -147,9 +159,13 @@ func c12Run(env *core.Env, idx int) *core.CaseResult {
 	if exactlyOnce {
 		tags = []string{"insert-delete-workload"}
 	}
+	if burst {
+		tags = append(tags, "burst-of-callers")
+		res.Add("burst_histories", 1)
+	}
 	cols := []rm.Col{{Name: "id", K: rm.KInt}, {Name: "g1", K: rm.KInt}, {Name: "g2", K: rm.KInt}, {Name: "val", K: rm.KStr}}
 	banks := 4
-	if exactlyOnce || (growing && r.Intn(2) == 0) {
+	if exactlyOnce || burst || (growing && r.Intn(2) == 0) {
 		banks = 1 // all clients on the same 12 rows: maximal contention (relocations + aborts + internal retries)
 	}
 	if growing {
@@ -192,11 +208,25 @@ func c12Run(env *core.Env, idx int) *core.CaseResult {
 		}
 		mu.Unlock()
 	}
+	startGate := make(chan struct{})
+	gates := make([]sync.WaitGroup, opsPer)
+	if burst {
+		for i := range gates {
+			gates[i].Add(clients)
+		}
+	}
 	for c := 0; c < clients; c++ {
 		wg.Add(1)
 		go func(c int) {
 			defer wg.Done()
 			defer finished.Add(1)
+			<-startGate // all callers are released together
+			nextRound := 0
+			defer func() { // a caller that stops early must not hold up the round barriers of the others
+				for ; burst && nextRound < opsPer; nextRound++ {
+					gates[nextRound].Done()
+				}
+			}()
 			defer func() {
 				if p := recover(); p != nil {
 					fail("client panicked: " + fmt.Sprint(p))
@@ -205,6 +235,11 @@ func c12Run(env *core.Env, idx int) *core.CaseResult {
 			lr := rand.New(rand.NewSource(seeds[c]))
 			var mine []int32
 			for n := 0; n < opsPer; n++ {
+				if burst {
+					gates[n].Done()
+					nextRound = n + 1
+					gates[n].Wait()
+				}
 				if exactlyOnce {
 					// inserts of unique ids, deletes of own earlier ids, group updates
 					if len(mine) == 0 || lr.Intn(3) != 0 {
@@ -245,6 +280,10 @@ func c12Run(env *core.Env, idx int) *core.CaseResult {
 					in.X = lr.Intn(12)
 				}
 				in.Write = in.Grp != "id" && lr.Intn(2) == 0
+				if burst && lr.Intn(5) != 0 {
+					// mostly conflicting multi-row writes on few groups
+					in.Grp, in.X, in.Write = "g1", lr.Intn(3), true
+				}
 				var sql string
 				if in.Write {
 					in.Tok = fmt.Sprintf("c%02dn%04d", c, n)
@@ -310,6 +349,7 @@ func c12Run(env *core.Env, idx int) *core.CaseResult {
 			}
 		}(c)
 	}
+	close(startGate)
 	// background activity
 	bgStop := make(chan struct{})
 	var bg sync.WaitGroup
@@ -335,18 +375,44 @@ func c12Run(env *core.Env, idx int) *core.CaseResult {
 	select {
 	case <-done:
 	case <-time.After(60 * time.Second):
-		d1 := allStacks()
-		time.Sleep(2 * time.Second)
+		// not finished after 60 s: is anything still making progress? Two samples 10 s apart of (operations completed,
+		// goroutine dump). No completed operation in between AND every goroutine that is inside the engine's statement
+		// path or a client call is blocked (channel / lock / select wait), none running or runnable -> nobody can ever
+		// complete these calls: deadlock / lost wake-up. (The harness's own background goroutine keeps running and is ignored.)
+		mu.Lock()
+		n1 := len(ops) + len(acks)
+		mu.Unlock()
+		f1 := finished.Load()
+		time.Sleep(10 * time.Second)
 		d2 := allStacks()
+		mu.Lock()
+		n2 := len(ops) + len(acks)
+		mu.Unlock()
 		select {
 		case <-done:
 		default:
 			hung = true
 			res.RestartChild = true
-			if stripAddrs(d1) == stripAddrs(d2) && !strings.Contains(d2, "[running]") && !strings.Contains(d2, "[runnable]") {
-				res.Violate("call-never-returns", tags, desc, "%d of %d clients have not returned 60 s after start; two goroutine dumps 2 s apart are identical and no goroutine is running: deadlock / lost wake-up. Engine frames: %s", clients-int(finished.Load()), clients, engineFrames([]byte(d2)))
+			active := 0
+			for _, g := range strings.Split(d2, "\n\n") {
+				if !strings.Contains(g, "samehada.(*SamehadaDB).ExecuteSQL") && !strings.Contains(g, "samehada.(*RequestManager)") && !strings.Contains(g, "checks.c12Run.func") {
+					continue
+				}
+				if strings.Contains(g, "ForceCheckpointingForTestcase") || strings.Contains(g, "UpdateStats") {
+					continue
+				}
+				head := g
+				if i := strings.Index(g, "\n"); i > 0 {
+					head = g[:i]
+				}
+				if strings.Contains(head, "[running]") || strings.Contains(head, "[runnable]") || strings.Contains(head, "[sleep") || strings.Contains(head, "[syscall") {
+					active++
+				}
+			}
+			if n1 == n2 && f1 == finished.Load() && active == 0 {
+				res.Violate("call-never-returns", tags, desc, "%d of %d clients have not returned 70 s after start; no call completed during the last 10 s and every client / request-manager / statement goroutine is blocked on a channel or lock: deadlock or lost wake-up. Engine frames: %s", clients-int(finished.Load()), clients, engineFrames([]byte(d2)))
 			} else {
-				res.Inconclusive = "clients still busy after 60 s (retry storm or slow machine)"
+				res.Inconclusive = "clients still busy after 70 s (retry storm or slow machine)"
 			}
 		}
 	}
@@ -431,6 +497,13 @@ func c12Run(env *core.Env, idx int) *core.CaseResult {
 		res.Add("overlapping_conflicting_pairs", int64(overlap))
 		if overlap >= 10 {
 			res.Nontrivial = true
+		}
+		if burst {
+			res.Add("burst_operations_returned", int64(len(ops)))
+			res.Nontrivial = true
+			guarded(func() { db.S.ShutdownForTescase() })
+			res.Key = fmt.Sprintf("c12-%d", idx)
+			return res
 		}
 		result, info := porcupine.CheckOperationsVerbose(c12Model, ops, 25*time.Second)
 		switch result {
